@@ -38,6 +38,21 @@ def rewrites(rnd, toks, every_position):
     for i in (sub if every_position else sub[:1]):
         out.append(('trailing-space-before-blank-line', join({i: ' \t' + toks[i][1]})))
         out.append(('space-inside-blank-line', join({i: toks[i][1].replace('\n', '\n  ', 1)})))
+    # whitespace where none was: just inside a bracket (after an opener, before a closer) it carries no meaning
+    OPEN, CLOSE = ('StartGroup', 'StartSideEffect', 'StartExpression'), ('EndGroup', 'EndSideEffect', 'EndExpression')
+    def nxt(i): return toks[i + 1][0] if i + 1 < len(toks) else None
+    def prv(i): return toks[i - 1][0] if i > 0 else None
+    opens = [i for i, (ty, tx) in enumerate(toks) if ty in OPEN and nxt(i) not in CLOSE and nxt(i) != 'Whitespace']
+    closes = [i for i, (ty, tx) in enumerate(toks) if ty in CLOSE and prv(i) not in OPEN and prv(i) != 'Whitespace' and prv(i) != 'Subexpression']
+    if opens or closes:
+        edit = {i: toks[i][1] + ' ' for i in opens}
+        edit.update({i: ' ' + toks[i][1] for i in closes})
+        out.append(('pad-inside-all-brackets', join(edit)))
+        for i in (opens if every_position else opens[:1]):
+            out.append(('pad-after-opener', join({i: toks[i][1] + ' '})))
+        for i in (closes if every_position else closes[:1]):
+            out.append(('pad-before-closer', join({i: ' ' + toks[i][1]})))
+            out.append(('tab-before-closer', join({i: '\t' + toks[i][1]})))
     text = join({})
     out.append(('trailing-space', text + '  '))
     out.append(('trailing-tab-newline', text + ' \t\n'))
@@ -54,7 +69,8 @@ def add_pure_blocks(rnd, root):
         for i, c in enumerate(kids):
             if c.kind in ('lit', 'in') and n.kind in ('bin', 'slist', 'clist', 'pair') and rnd.random() < 0.4:
                 body = rnd.choice([proggen.lit_int(1), proggen.binop('+', proggen.lit_int(1), proggen.lit_int(2)), proggen.lit_text('x')])
-                kids[i] = proggen.Node('seafter', None, [c, body], 'atom')
+                before = n.kind in ('bin', 'pair') and i == 1 or (n.kind == 'clist' and i >= 1)
+                kids[i] = proggen.Node('sebefore' if (before and rnd.random() < 0.5) else 'seafter', None, [c, body], 'atom')
             else:
                 go(c)
         if n.kind == 'chain':
@@ -71,7 +87,15 @@ def run(ctx):
     if not h_ok:
         return
     progs = progsuite.gen_programs(ctx, 1200 if ctx.tier == 'quick' else 20000, 1)
-    # pass 1: lex every program with the real lexer
+    # programs with pure side-effect blocks hung on atoms (after the atom, or in front of it after an operator / comma) are
+    # bases of their own, so that the layout rewrites also act inside and around blocks
+    blk = []
+    for k, (src, ast, root, stream) in enumerate(progs):
+        if k % 3 == 0 and root is not None:
+            t = proggen.pp(add_pure_blocks(rnd, root))
+            if t != src:
+                blk.append((t, None, None, 'blocks' if stream == 'random' else 'blocks-small'))
+    progs = progs + blk
     lexcases = [['LEX', str(i), vlib.esc(src)] for i, (src, ast, root, stream) in enumerate(progs)]
     lexed = vlib.run_impl(lexcases, 'c18lex', per_case_s=5.0)
     cases = []
@@ -90,11 +114,14 @@ def run(ctx):
         inp = rnd.choice(proggen.INPUTS)
         base = add(src, store, inp)
         vs = []
-        for kind, text in rewrites(rnd, toks, every_position=(stream != 'random' or ctx.tier == 'thorough')):
+        if ctx.tier == 'quick' and stream in ('pairs', 'logic', 'loops') and i % 4 != 0:
+            continue
+        for kind, text in rewrites(rnd, toks, every_position=(stream.startswith('small') or stream == 'blocks-small' or ctx.tier == 'thorough')):
             vs.append((kind, add(text, store, inp), True))
         # wrapping complete operands in parentheses / adding pure side-effect blocks change the tree only by group / block nodes
-        vs.append(('extra-parens', add(proggen.pp(root, rnd), store, inp), False))
-        vs.append(('pure-side-effect-blocks', add(proggen.pp(add_pure_blocks(rnd, root)), store, inp), False))
+        if root is not None:
+            vs.append(('extra-parens', add(proggen.pp(root, rnd), store, inp), False))
+            vs.append(('pure-side-effect-blocks', add(proggen.pp(add_pure_blocks(rnd, root)), store, inp), False))
         groups.append((base, vs, src))
     ctx.evaluations = len(cases)
     impl = vlib.run_impl(cases, 'c18', per_case_s=5.0)
@@ -116,10 +143,10 @@ def run(ctx):
                 ctx.fail('oracle', c, impl=impl.get(vid), model=None, expect=impl.get(bid), note=f'rewrite `{kind}` changed the result; original source {src!r}')
             elif same_stream and impl.get(vdump) != bd:
                 ctx.fail('oracle', cases[int(vdump)], impl=impl.get(vdump), model=None, expect=bd, note=f'rewrite `{kind}` changed the built instruction stream (the parse tree differs by more than trivia); original source {src!r}')
-    ctx.rule = ('every generated core-language program (small-exhaustive + random) x rewrites: add a space / a tab to an existing whitespace token (every position for small programs), double all spaces, insert an annotation or a comment line where whitespace is, add spaces/tabs before and inside a blank line, leading / trailing whitespace, '
+    ctx.rule = ('every generated core-language program (small-exhaustive + random) x rewrites: add a space / a tab to an existing whitespace token (every position for small programs), double all spaces, insert an annotation or a comment line where whitespace is, add spaces/tabs before and inside a blank line, leading / trailing whitespace, a space or tab just inside a bracket where none was (after `(` `[` `{`, before `)` `]` `}`), the same rewrites on programs that carry pure side-effect blocks after atoms and in front of operands, '
                 'wrap complete operands in parentheses (printer option), hang pure side-effect blocks on atoms; oracle: identical result value and host-call trace, and for whitespace/annotation rewrites an identical built instruction stream; distinct = distinct (rewrite kind, rewritten source).')
     ctx.suites = {'RUN+DUMP': len(cases), 'rewrites': kinds}
-    ctx.distribution = progsuite.feature_distribution(progs)
+    ctx.distribution = progsuite.feature_distribution([p for p in progs if p[2] is not None])
     for (bid, bdump), vs, src in groups[:: max(1, len(groups) // 5)][:5]:
         ctx.sample({'source': src, 'variant': vlib.unesc(cases[int(vs[0][1][0])][3]), 'kind': vs[0][0], 'result': impl.get(bid)}, cap=80)
     ctx.trusted += ['the rewrites are applied to the real lexer`s token list (only whitespace tokens are edited), so "where whitespace is already allowed" holds by construction',
